@@ -189,6 +189,13 @@ def statements():
             out.append(N("for", N("vardecl", ty, "i", li, fin, False), N("bin", "<", A, B), N("post", "++", var("k")), blk(N("echo", var("i")))))
     out += [
         N("for", N("vardecl", ("prim", "qubit"), "q", None, False, False), N("bin", "<", A, B), N("post", "++", var("k")), blk()),
+        # (hunt C14/d3) ... annotated, of a class type, of a generic class type, an array
+        N("for", N("vardecl", ("prim", "qubit"), "q", None, False, True), N("bin", "<", A, B), N("post", "++", var("k")), blk()),
+        N("for", N("vardecl", ("arr", ("prim", "qubit"), 2), "r", None, False, True), N("bin", "<", A, B), N("post", "++", var("k")), blk()),
+        N("for", N("vardecl", ("named", ["K"], None), "n", N("new", ("named", ["K"], None), []), False, False), N("bin", "!=", var("n"), N("null")), N("assign", "n", N("null")), blk(N("echo", A))),
+        N("for", N("vardecl", ("named", ["K"], None), "n", var("k"), True, False), N("bin", "<", A, B), N("post", "++", var("k")), blk()),
+        N("for", N("vardecl", ("named", ["Box"], [INT]), "bx", N("new", ("named", ["Box"], []), [A]), False, False), N("bin", "<", A, B), N("post", "++", var("k")), blk()),
+        N("for", N("vardecl", ("arr", INT, 3), "xs", None, False, False), N("bin", "<", A, B), N("post", "++", var("k")), blk()),
         N("if", A, N("block", [N("if", B, N("block", []), N("block", [N("echo", C)]))]), N("block", [])),
         N("while", A, N("block", [N("while", B, N("block", [N("return", None)]))])),
         N("ternary", A, N("ternary", B, N("echo", A), N("echo", B)), N("echo", C)),
